@@ -89,6 +89,13 @@ def make_relabel(A, B, kind: str, r: random.Random):
         dp, dh = r.randint(1, 5000), r.randint(1, 300)
         pm = {p: p + dp for p in pids}
         hm = {h: h + dh for h in hhs}
+    elif kind == "huge":  # person ids far beyond 2**53 (household ids stay small: group-id arithmetic allocates by magnitude)
+        k = r.choice([31, 40, 53, 54, 60, 62])
+        base = 2**k - r.randint(0, 3)
+        step = r.choice([1, 1, 2, 7])
+        order = sorted(pids)
+        pm = {p: base + step * i for i, p in enumerate(order)}
+        hm = {h: h for h in hhs} if r.random() < 0.5 else dict(zip(hhs, r.sample(range(H_RANGE), len(hhs))))
     elif kind == "swap_labels":  # labels permuted among the same persons
         sh = pids[:]
         r.shuffle(sh)
@@ -160,7 +167,9 @@ def evaluate(case, params, functions, graph, types, ref=None, isolate=True):
                     foreign[nd] = sorted(int(x) for x in mixed)[:5]
     pmap = {int(x): int(y) for x, y in case["relabel"]["p"]} if case.get("relabel") else None
     sub = {"order": [t for t in graph["order"] if t in a and t in b], "parents": graph["parents"]}
-    cmp_ = compare.compare_aligned(sub, a, b, pidsA, id_nodes, ptr_map=pmap, foreign=foreign)
+    # A's rows keep their relative order in every variant, so no float sum of A is
+    # re-associated: "identical" is taken literally (bit-exact), see DESIGN 4.2
+    cmp_ = compare.compare_aligned(sub, a, b, pidsA, id_nodes, ptr_map=pmap, foreign=foreign, strict=True)
     rep["counts"] = cmp_["counts"]
     rep["violating"] = list(cmp_["frontier"])
     for nd in cmp_["frontier"]:
@@ -177,9 +186,12 @@ def evaluate(case, params, functions, graph, types, ref=None, isolate=True):
 # ------------------------------------------------------------------ exploration
 
 
-def _disjoint_B(A, r, year, stat, rows):
+def _disjoint_B(A, r, year, stat, rows, crowd=0, style="mixed"):
     for _ in range(6):
-        B = popgen.generate(r.randrange(1 << 30), year, min_rows=1, max_rows=r.randint(1, rows), stat_values=stat, id_mode="dense")
+        if crowd:
+            B = popgen.generate_crowd(r.randrange(1 << 30), year, crowd, stat_values=stat, style=style)
+        else:
+            B = popgen.generate(r.randrange(1 << 30), year, min_rows=1, max_rows=r.randint(1, rows), stat_values=stat, id_mode="dense")
         n, nh = popgen.n_rows(B), len(set(B["cols"]["hh_id"]))
         usedp, usedh = set(A["cols"]["p_id"]), set(A["cols"]["hh_id"])
         mode = r.choice(["above", "interleaved", "far"])
@@ -242,7 +254,7 @@ def explore(run_seed: int, cfg: dict) -> dict:
         for kb in r.sample(range(nB), min(nB, cfg.get("max_first", 3))):
             if kb:
                 variants.append(("each_B_row_first", {"B": rotate_B(B["cols"], kb), "merge": "B" + "A" * nA + "B" * (nB - 1), "relabel": None}))
-        for kind in r.sample(["reverse", "shift", "swap_labels", "sparse", "sparse"], cfg.get("n_relabel", 3)):
+        for kind in r.sample(["reverse", "shift", "swap_labels", "sparse", "sparse", "huge"], cfg.get("n_relabel", 3)):
             with_b = r.random() < 0.5
             rel = make_relabel(A["cols"], B["cols"] if with_b else None, kind, r)
             if rel is None:
@@ -253,6 +265,19 @@ def explore(run_seed: int, cfg: dict) -> dict:
                 r.shuffle(mm)
                 m = "".join(mm)
             variants.append((f"relabel_{kind}" + ("+B" if with_b else ""), {"B": B["cols"] if with_b else None, "merge": m, "relabel": rel}))
+        if k == 0 and cfg.get("crowd"):
+            # size-dependent code paths: a few hundred unrelated rows around A
+            csize, cstyle = popgen.draw_crowd(r, cfg["crowd"])
+            C, _ = _disjoint_B(A, r, year, stat, hi, crowd=csize, style=cstyle)
+            if C is not None:
+                nC = popgen.n_rows(C)
+                mm = ["A"] * nA + ["B"] * nC
+                r.shuffle(mm)
+                variants.append((f"crowd_random_merge", {"B": C["cols"], "merge": "".join(mm), "relabel": None}))
+                variants.append((f"crowd_before", {"B": C["cols"], "merge": "B" * nC + "A" * nA, "relabel": None}))
+                if r.random() < 0.5:
+                    variants.append((f"crowd_after", {"B": C["cols"], "merge": "A" * nA + "B" * nC, "relabel": None}))
+                case_stat["crowd"] = [nC, cstyle]
         for fam, v in variants:
             case = {"date": date, "A": A["cols"], **v}
             rep = evaluate(case, params, functions, graph, types, ref=ref)
